@@ -229,13 +229,14 @@ func (g Gateway) Set(ctx context.Context, in *hydrapb.SetRequest) (*hydrapb.SetR
 
 		func() {
 
+			// Every requested swamp gets exactly one entry in the response:
+			// the error cases fill in the entry that is appended after this
+			// function returns instead of appending a second one.
+
 			// this is a meaningless setting
 			if !swampRequest.GetCreateIfNotExist() && !swampRequest.GetOverwrite() {
-				swampResponses = append(swampResponses, &hydrapb.SwampResponse{
-					SwampName:       swampRequest.SwampName,
-					KeysAndStatuses: []*hydrapb.KeyStatusPair{},
-					ErrorCode:       hydrapb.SwampResponse_CanNotBeExecuted.Enum(),
-				})
+				swampResponse.KeysAndStatuses = []*hydrapb.KeyStatusPair{}
+				swampResponse.ErrorCode = hydrapb.SwampResponse_CanNotBeExecuted.Enum()
 				return
 			}
 
@@ -243,11 +244,8 @@ func (g Gateway) Set(ctx context.Context, in *hydrapb.SetRequest) (*hydrapb.SetR
 			if !swampRequest.GetCreateIfNotExist() {
 				isExist, err := hydraInterface.IsExistSwamp(swampRequest.GetIslandID(), swampName)
 				if err != nil || !isExist {
-					swampResponses = append(swampResponses, &hydrapb.SwampResponse{
-						SwampName:       swampRequest.SwampName,
-						KeysAndStatuses: []*hydrapb.KeyStatusPair{},
-						ErrorCode:       hydrapb.SwampResponse_SwampDoesNotExist.Enum(),
-					})
+					swampResponse.KeysAndStatuses = []*hydrapb.KeyStatusPair{}
+					swampResponse.ErrorCode = hydrapb.SwampResponse_SwampDoesNotExist.Enum()
 					return
 				}
 			}
@@ -1906,7 +1904,6 @@ func (g Gateway) Uint32SliceDelete(ctx context.Context, in *hydrapb.Uint32SliceD
 			}
 
 			guardID := treasureObj.StartTreasureGuard(true)
-			defer treasureObj.ReleaseTreasureGuard(guardID)
 
 			if err := treasureObj.Uint32SliceDelete(pair.GetValues()); err != nil {
 				errorsWhileDelete = append(errorsWhileDelete, err.Error())
@@ -1917,6 +1914,12 @@ func (g Gateway) Uint32SliceDelete(ctx context.Context, in *hydrapb.Uint32SliceD
 			// check the length of the slice in the treasure
 			// if the length is 0, we can delete the treasure
 			size, err := treasureObj.Uint32SliceSize()
+
+			// The guard has to be released before the record is deleted:
+			// DeleteTreasure takes the guard of the same record and would
+			// otherwise wait for this very request forever.
+			treasureObj.ReleaseTreasureGuard(guardID)
+
 			if err != nil || size == 0 {
 				// delete the treasure
 				if err := swampObj.DeleteTreasure(pair.GetKey(), false); err != nil {
